@@ -11,6 +11,9 @@
 
 mod gen;
 mod ops;
+
+#[global_allocator]
+static GLOBAL: ops::SimAlloc = ops::SimAlloc;
 mod refmodel;
 mod rng;
 
@@ -743,6 +746,7 @@ fn parse_args(a: &[String]) -> Args {
             "--fault-free" => out.flags.fault_free = true,
             "--print-trace" => out.print_trace = true,
             "--lite" => out.lite = true,
+            "--alloc-faults" => ops::ALLOC_FAULTS.store(true, std::sync::atomic::Ordering::Relaxed),
             "--uninit" => ops::UNINIT_BUFFERS.store(true, std::sync::atomic::Ordering::Relaxed),
             "--records" => out.records = true,
             other if other == "-" || !other.starts_with("--") => out.file = Some(other.to_string()),
@@ -830,6 +834,9 @@ fn main() {
         },
         "gated" => {
             let sw = swarm(args.seed, &args.focus, &args.flags);
+            if sw.alloc_faults {
+                ops::ALLOC_FAULTS.store(true, std::sync::atomic::Ordering::Relaxed);
+            }
             let events = gen_history(args.seed, &sw);
             let lines: Vec<String> = events.iter().map(|e| e.encode()).collect();
             if args.print_trace {
